@@ -64,6 +64,132 @@ def to_plain_str(e):
     return to_str(e) if t not in ("var", "pi") else (e[1] if t == "var" else "pi")
 
 
+# ---------------------------------------------------------------------------------------------------------
+# Natural-precedence printing: what a USER would write (no redundant outer parentheses, ordinary operator
+# precedence, `**` powers, unary minus, plain / scientific / `p/q` numeric literals, optional extra blanks).
+# `to_str` above stays the fully parenthesised reference form; `user_str` is what a share of the generated
+# models hand to pygom, so that the code under test sees strings whose meaning depends on precedence
+# (e.g. a magnitude `1 - p` pasted in front of `*(rate)`).  The printer is checked on every case it is used for
+# by `python_value` (Python's own parser and precedence on the printed string) against `ev` of the tree.
+# ---------------------------------------------------------------------------------------------------------
+
+DEFAULT_SYNTAX = {"spaces": 1, "num": "frac"}
+
+
+def _num_user(f, sx):
+    """(string, precedence, starts_with_minus) of a rational literal"""
+    mode = sx.get("num", "frac")
+    neg_ = f < 0
+    a = abs(f)
+    if a.denominator == 1:
+        s, pr = str(a.numerator), 5
+    elif mode == "rational":
+        return "Rational(%d,%d)" % (f.numerator, f.denominator), 5, False
+    else:
+        d = a.denominator
+        k = 0
+        while d % 10 == 0:
+            d //= 10; k += 1
+        dec = None
+        if mode in ("sci", "dec"):
+            d2 = a.denominator
+            while d2 % 2 == 0: d2 //= 2
+            while d2 % 5 == 0: d2 //= 5
+            if d2 == 1:
+                # terminating decimal
+                from decimal import Decimal, getcontext
+                getcontext().prec = 60
+                dd = Decimal(a.numerator) / Decimal(a.denominator)
+                if mode == "sci" and d == 1 and k >= 2:
+                    dec = "%de-%d" % (a.numerator, k)          # 1e-3, 25e-4
+                else:
+                    dec = format(dd.normalize(), "f")
+        if dec is not None:
+            s, pr = dec, 5
+        else:
+            s, pr = "%d/%d" % (a.numerator, a.denominator), 2
+    if neg_:
+        return "-" + s, min(pr, 3), True
+    return s, pr, False
+
+
+def _user(e, sx):
+    """(string, precedence, starts_with_minus); precedence 1 add/sub, 2 mul/div, 3 unary minus, 4 power, 5 atom"""
+    t = e[0]
+    sp = sx.get("spaces", 1)
+    if t == "num":
+        return _num_user(Fraction(e[1]), sx)
+    if t == "pi":
+        return "pi", 5, False
+    if t == "var":
+        return e[1], 5, False
+    if t in ("add", "sub", "mul", "div"):
+        pr = 1 if t in ("add", "sub") else 2
+        ls, lp, lm = _user(e[1], sx)
+        rs, rp, rm = _user(e[2], sx)
+        if lp < pr:
+            ls, lm = "(%s)" % ls, False
+        if rp <= pr or rm:
+            rs = "(%s)" % rs
+        op = {"add": "+", "sub": "-", "mul": "*", "div": "/"}[t]
+        if sp >= 2:
+            op = "  %s " % op
+        elif sp == 1 and pr == 1:
+            op = " %s " % op
+        return ls + op + rs, pr, lm
+    if t == "neg":
+        s, p, m = _user(e[1], sx)
+        if e[1][0] in ("mul", "div") and not m:
+            return "-" + s, 2, True            # -a*b : Python reads (-a)*b, the same value
+        if p < 4 or m:
+            s = "(%s)" % s
+        return ("- " if sp >= 2 else "-") + s, 3, True
+    if t == "pow":
+        s, p, m = _user(e[1], sx)
+        if p < 5 or m:
+            s = "(%s)" % s
+        n = int(e[2])
+        return "%s**%s" % (s, str(n) if n >= 0 else "(%d)" % n), 4, False
+    if t in ("exp", "log", "sin", "cos"):
+        s, p, m = _user(e[1], sx)
+        return ("%s( %s )" if sp >= 2 else "%s(%s)") % (t, s), 5, False
+    raise ValueError("bad expr %r" % (e,))
+
+
+def user_str(e, sx=None):
+    """`e` as a user would type it (see above).  sx: {"spaces": 0|1|2, "num": "frac"|"sci"|"dec"|"rational", "pad": bool}"""
+    sx = sx or DEFAULT_SYNTAX
+    s = _user(e, sx)[0]
+    if sx.get("pad"):
+        s = " " + s + "  "
+    return s
+
+
+def fmt(e, sx=None):
+    """the string handed to pygom: fully parenthesised reference form unless a syntax style is given"""
+    return to_str(e) if not sx else user_str(e, sx)
+
+
+def python_value(s, env):
+    """value of the STRING s under env according to Python's own grammar and operator precedence (the grammar pygom's
+    equation strings are written in), in mpmath arithmetic; integer literals are made exact (`1/3` is a third)"""
+    import ast
+
+    class _Lit(ast.NodeTransformer):
+        def visit_Constant(self, node):
+            if isinstance(node.value, (int, float)) and not isinstance(node.value, bool):
+                return ast.copy_location(ast.Call(func=ast.Name(id="__lit", ctx=ast.Load()),
+                                                  args=[ast.Constant(value=repr(node.value))], keywords=[]), node)
+            return node
+
+    tree = ast.fix_missing_locations(_Lit().visit(ast.parse(s.strip(), mode="eval")))
+    ns = {"__lit": lambda r: mpf(r), "exp": mpmath.exp, "log": mpmath.log, "sin": mpmath.sin, "cos": mpmath.cos, "pi": mpmath.pi,
+          "Rational": lambda p, q: mpf(p) / mpf(q)}
+    for k, v in env.items():
+        ns[k] = mpf(v.numerator) / mpf(v.denominator) if isinstance(v, Fraction) else mpf(v)
+    return eval(compile(tree, "<user_str>", "eval"), {"__builtins__": {}}, ns)
+
+
 class Undefined(Exception):
     pass
 
@@ -107,6 +233,44 @@ def ev(e, env):
         return mpmath.sin(ev(e[1], env))
     if t == "cos":
         return mpmath.cos(ev(e[1], env))
+    raise ValueError("bad expr %r" % (e,))
+
+
+def ev_bound(e, env):
+    """(value, bound): `bound` >= the sum of the absolute values of the terms that are added up anywhere inside e (for any
+    expanded / regrouped but algebraically equal form), so that a double-precision evaluation of e is accurate to a few
+    ulp * bound.  It is the scale against which a value of e is compared RELATIVELY per entry when the point contains very
+    small and very large numbers (an absolute floor would hide a small entry; |value| alone ignores cancellation)."""
+    t = e[0]
+    if t in ("num", "pi", "var"):
+        v = ev(e, env)
+        return v, abs(v)
+    if t in ("add", "sub"):
+        a, A = ev_bound(e[1], env); b, B = ev_bound(e[2], env)
+        return (a + b if t == "add" else a - b), A + B
+    if t == "mul":
+        a, A = ev_bound(e[1], env); b, B = ev_bound(e[2], env)
+        return a * b, A * B
+    if t == "div":
+        a, A = ev_bound(e[1], env); b, B = ev_bound(e[2], env)
+        if abs(b) < mpf("1e-6") * B or b == 0:
+            raise Undefined("near-zero denominator")
+        return a / b, (A / abs(b)) * (B / abs(b))
+    if t == "neg":
+        a, A = ev_bound(e[1], env)
+        return -a, A
+    if t == "pow":
+        a, A = ev_bound(e[1], env)
+        return a ** int(e[2]), A ** int(e[2])
+    a, A = ev_bound(e[1], env)
+    if t == "exp":
+        return mpmath.exp(a), mpmath.exp(a) * (1 + A)
+    if t == "log":
+        if a < mpf("1e-6"):
+            raise Undefined("log of non-positive")
+        return mpmath.log(a), abs(mpmath.log(a)) + A / a
+    if t in ("sin", "cos"):
+        return (mpmath.sin(a) if t == "sin" else mpmath.cos(a)), 1 + A
     raise ValueError("bad expr %r" % (e,))
 
 
